@@ -27,8 +27,9 @@ EXTENDS Naturals, Sequences, FiniteSets, TLC
 (* trees too deep for the JSON reader arrive flat: [nodes |-> <<[t, v, a, id, k: child indices]>>, root] *)
 RECURSIVE TreeAt(_, _)
 TreeAt(ns, i) ==
-  [t |-> ns[i].t, v |-> ns[i].v, a |-> ns[i].a, id |-> ns[i].id,
-   c |-> [j \in 1..Len(ns[i].k) |-> TreeAt(ns, ns[i].k[j])]]
+  [t |-> ns[i].t, v |-> ns[i].v, a |-> ns[i].a, id |-> ns[i].id, n |-> ns[i].n,
+   l |-> ns[i].l, k |-> ns[i].k, el |-> ns[i].el, ek |-> ns[i].ek,
+   c |-> [j \in 1..Len(ns[i].kids) |-> TreeAt(ns, ns[i].kids[j])]]
 TreeOf(x) == IF "nodes" \in DOMAIN x THEN TreeAt(x.nodes, x.root) ELSE x
 
 Kid(n, i) == n.c[i]
